@@ -58,6 +58,8 @@ def canon(obj, _depth=0, _attr=None, shallow_names=False):
         return obj
     if type(obj).__module__ == "numpy" and hasattr(obj, "item"):
         obj = obj.item()   # a numpy scalar the caller handed over stands for the plain value
+    if _attr == "right_value" and isinstance(obj, (int, float)) and not isinstance(obj, bool):
+        return repr(obj)   # the fixed value of a Condition given as a number stands for its text form (what the XML holds)
     if isinstance(obj, (bool, int, float)):
         return _num(obj)
     if isinstance(obj, dict):
